@@ -23,6 +23,8 @@ type Query struct {
 	// Opaque: name prefixes of defined spec functions that are left uninterpreted in this query
 	// (contract attribute `opaque`; sound: the solver knows less)
 	Opaque []string
+	// ProvingLemma: the goal is a spec lemma; no lemma may be used as an axiom
+	ProvingLemma bool
 }
 
 // Prelude knows about spec functions, axioms and string literals.
@@ -120,8 +122,11 @@ func (p *Prelude) Emit(q *Query, wantModel bool) (string, []string) {
 			if usedAx[i] {
 				continue
 			}
-			skip := false
+			skip := q.ProvingLemma && ax.Lemma
 			for _, pre := range q.NoAxioms {
+				if ax.Lemma {
+					break // noaxioms never hides a proved lemma
+				}
 				if strings.HasPrefix(ax.Label, pre) {
 					skip = true
 				}
